@@ -19,7 +19,7 @@ func c15Universe() (WorldSpec, []absOp) {
 	spec := MakeSpec(2, 1, true, 0, "0")
 	A, B, C := []byte(spec.Users[0]), []byte(spec.Users[1]), []byte(spec.Users[2])
 	F, S := []byte("FNG-a1b2c3"), []byte("SFT-0a0b0c")
-	sys := vmcommon.ESDTSCAddress
+	sys := refESDTSC
 	sh := func(a []byte) int { return int(computeShard(a, 2)) }
 	call := func(shard int, fn string, caller, rcv []byte, args ...[]byte) *Call {
 		return &Call{Shard: shard, Fn: fn, Caller: cp(caller), Rcv: cp(rcv), Args: hbs(args...), Gas: ampleGas}
@@ -125,13 +125,13 @@ func c15Universe() (WorldSpec, []absOp) {
 		{"wipe A F", system(vmcommon.BuiltInFunctionESDTWipe, A, F)},
 		{"freeze B F", system(vmcommon.BuiltInFunctionESDTFreeze, B, F)},
 		{"pause F shard0", func(*Engine) *Call {
-			return call(0, vmcommon.BuiltInFunctionESDTPause, sys, vmcommon.SystemAccountAddress, F)
+			return call(0, vmcommon.BuiltInFunctionESDTPause, sys, refSystemAccount, F)
 		}},
 		{"unpause F shard0", func(*Engine) *Call {
-			return call(0, vmcommon.BuiltInFunctionESDTUnPause, sys, vmcommon.SystemAccountAddress, F)
+			return call(0, vmcommon.BuiltInFunctionESDTUnPause, sys, refSystemAccount, F)
 		}},
 		{"pause SFT shard0", func(*Engine) *Call {
-			return call(0, vmcommon.BuiltInFunctionESDTPause, sys, vmcommon.SystemAccountAddress, S)
+			return call(0, vmcommon.BuiltInFunctionESDTPause, sys, refSystemAccount, S)
 		}},
 		{"handover A->B", func(e *Engine) *Call {
 			if !e.M.acc(0, A).hasRole(S, vmcommon.ESDTRoleNFTCreate) {
